@@ -73,6 +73,15 @@ def regen(ctx, needed):
         except Exception as e:  # TranslationError or anything else: fail closed
             ok[name] = f"{type(e).__name__}: {e}"
             ctx.stage_errors.append((f"translator {name}", ok[name]))
+            # the obligations on this translator's output must not be discharged against a stale file
+            gen = {"enums": "Enums", "defender": "DefenderTables", "codec": "CodecDesc", "dispatch": "Dispatch",
+                   "confdefaults": "ConfigDefaults"}.get(name)
+            if gen:
+                for ext in (".v", ".vo", ".vok", ".vos", ".glob"):
+                    try:
+                        os.unlink(os.path.join(COQ, "Gen", gen + ext))
+                    except FileNotFoundError:
+                        pass
     return ok
 
 
